@@ -384,6 +384,20 @@ def sel(a, r):
     return a[r]
 
 
+def _has_quantifier(f, _seen=None):
+    seen = set() if _seen is None else _seen
+    todo = [f]
+    while todo:
+        x = todo.pop()
+        if x.get_id() in seen:
+            continue
+        seen.add(x.get_id())
+        if z3.is_quantifier(x):
+            return True
+        todo.extend(x.children())
+    return False
+
+
 class Contract:
     def __init__(self, cls, name, kind=None):
         self.cls, self.name, self.kind = cls, name, kind
@@ -533,9 +547,22 @@ class Engine:
         self.obligations.append(("lemma/" + name, list(hyps), goal))
 
     def feasible(self, st):
+        """path pruning (sound: a path is dropped only when its condition is proved unsatisfiable).
+        Stage 1: the quantifier-free part of the path condition alone; stage 2: everything, short timeout."""
+        from .solve import cone_defs
+        qf = [f for f in st.pc if not _has_quantifier(f)]
+        qf = [d for d in cone_defs(DEFS, qf) if not _has_quantifier(d)] + qf
         s = z3.Solver()
-        s.set("timeout", 300)
+        s.set("timeout", 1000)
+        s.add(qf)
+        if s.check() == z3.unsat:
+            return False
+        s = z3.Solver()
+        s.set("timeout", 500)
+        s.set("smt.mbqi", False)
+        s.set("smt.auto_config", False)
         s.add(self.axioms)
+        s.add(cone_defs(DEFS, st.pc))
         s.add(st.pc)
         return s.check() != z3.unsat
 
@@ -1040,6 +1067,12 @@ class Engine:
                 if k not in f.recv.d and len(args) < 2:
                     raise Unsupported("KeyError path: pop of missing key " + str(k))
                 return f.recv.d.pop(k, dflt)
+        if isinstance(f, VBound) and isinstance(f.recv, VLib) and f.recv.name.startswith("class:") and args and isinstance(args[0], VRef):
+            base_cls = f.recv.name[6:]
+            mro_ = self.repo.mro(args[0].cls)
+            if base_cls in mro_:
+                prev = mro_[mro_.index(base_cls) - 1] if mro_.index(base_cls) > 0 else None
+                return self.call_method(st, args[0], f.name, args[1:], kw, node=n, after=prev)
         if isinstance(f, VBound) and isinstance(f.recv, VBoolSeq):
             return self.bool_reduce(f.recv, f.name)
         if isinstance(f, VBound):
